@@ -7,6 +7,16 @@ ROOT = os.path.dirname(os.path.dirname(os.path.abspath(__file__)))
 
 # id -> (category, technique, level text, level note, design ref)
 CHECKS = {
+    "C03": ("model_checking",
+            "TLA+ definition of the interpolator as coded vs the tensor-product interpolant checked by TLC + emitted fields/queries replayed exactly + trace validation of random dyadic queries",
+            "TLC proves on the exact (dyadic/integer) domain that the interpolator as coded (per-branch corner convention and weights) equals the textbook N-linear interpolant, is exact at lattice points, stays within the surrounding values and reads exactly the 2^N cell vertices; every enumerated field and query is replayed with exact equality for coordinate and storage precisions float/double, M in 1..4, strided and Morton storage, a clamp beneath, an N-d probe for the cells read, and precision probes at 2^-20/2^-30; random grids are validated by Trace_Interp.",
+            "Trusted: TLC, g++ 12, exactness of IEEE arithmetic on the chosen domain. Not decided: the size of the rounding error for arbitrary finite floats; lattice exactness with stored values that need narrowing is covered by C07's Float module only for IO.",
+            "DESIGN.md section 4, C03 and section 6"),
+    "C09": ("model_checking",
+            "TLA+ integer model of covfie::algebra checked by TLC + emitted cases replayed exactly + trace validation of random integer products",
+            "TLC checks that compose-as-coded (homogeneous embedding) equals textbook composition, that (A*B)v = A(Bv), that products of up to four factors associate and that the factories have their meaning; cases are replayed with exact equality on covfie::algebra in float and double and on affine<identity> views; random operands (beyond 2^24 for double) are recomputed by TLC.",
+            "Trusted: TLC, g++ 12. Not decided: bounded relative error over arbitrary finite floats (TLA+ has no floats); the exact domain separates float from double accumulation via products above 2^24.",
+            "DESIGN.md section 4, C09 and section 6"),
     "C20": ("model_checking",
             "TLA+ transcription of the index-sequence metaprograms checked by TLC + every enumerated case compiled as a constant expression against the real templates",
             "TLC checks SortLaw, PermLaw and FilterLaw for every sequence of length <= 6 over {0..4} and every pair of length <= 4 over {0..3} (larger in the thorough tier) plus seeded longer sequences over a rank alphabet that the generator maps to values up to SIZE_MAX; each case with the specified result is compiled into generated translation units, g++ evaluating covfie's templates being the implementation under test.",
